@@ -567,7 +567,15 @@ def _present_keys(explainable: Explainable, options: Options) -> Set[str]:
         # Unknown: anything present may have contributed to the failure.
         return set(options.keys())
 
-    return {key for key in keys if dotted_key_exists(key, options)}
+    return {key for key in keys if _is_present(key, options)}
+
+
+def _is_present(key: str, options: Options) -> bool:
+    try:
+        return dotted_key_exists(key, options)
+    except TypeError:
+        # A non-section value sits at a prefix of the key
+        return False
 
 
 class EvaluateRequest(Request[A]):
